@@ -47,6 +47,8 @@ def run(ctx, monitors=MONITORS):
     write_scripts(plan_in, [plan])
     ctx.notes.append("TLC walks of the file machine replayed on the real stores: %d; call plan: %d response emitters, %d error-reply emitters"
                      % (len(walks), len(plan["responses"]), len(plan.get("errors", []))))
+    ctx.notes.append("damaged private files (fault family of Secrecy.tla): %d forms x %d files, every loader driven"
+                     % (len(plan.get("damage_forms", [])), len(plan.get("damage_files", []))))
 
     # 2. design level in the background while Go compiles and runs
     err = []
